@@ -16,9 +16,27 @@ theorem checkDurations_eq (a b : Dur) : (!checkDurations ms a b) = timerDiffers 
   generalize truncateDur b ms = y
   by_cases hx : x = 0 <;> by_cases hy : y = 0 <;> by_cases hxy : x = y <;> simp [hx, hy, hxy]
 
+theorem hopDiffers_iff (a b : Nat) : hopDiffers a b = true ↔ a ≠ 0 ∧ b ≠ 0 ∧ a ≠ b := by
+  unfold hopDiffers
+  simp only [Bool.and_eq_true, bne_iff_ne, ne_eq, and_assoc]
+
+@[simp] theorem hopDiffers_self (a : Nat) : hopDiffers a a = false := by
+  unfold hopDiffers; simp
+
 theorem checkRAs_eq (a b : RA) : checkRAs a b = header a b := by
   unfold checkRAs header
-  simp only [checkDurations_eq, bne_iff_ne, ne_eq, ite_not]
+  simp only [checkDurations_eq, bne_iff_ne, ne_eq, ite_not, hopDiffers_iff]
+
+/-- RFC 4861 §6.2.7: a router that leaves Cur Hop Limit unspecified (zero) — on either side — is
+    never reported for its hop limit (F-24: the pinned tree reported it on every RA) -/
+theorem unspecified_hop_limit_consistent (a b : RA) (h : a.hopLimit = 0 ∨ b.hopLimit = 0) (p : Problem)
+    (hp : p ∈ checkRAs a b) : p.field ≠ .hopLimit := by
+  rw [checkRAs_eq] at hp
+  unfold header at hp
+  have hz : hopDiffers a.hopLimit b.hopLimit = false := by
+    unfold hopDiffers; rcases h with h | h <;> simp [h]
+  simp only [hz, Bool.false_eq_true, if_false, List.nil_append, List.mem_append] at hp
+  rcases hp with ((hp | hp) | hp) | hp <;> split at hp <;> simp at hp <;> simp [hp]
 
 private theorem inner_pi (x : IP × Nat × Dur × Dur) (ys : List (IP × Nat × Dur × Dur)) :
     checkPrefixInner x ys = ys.flatMap fun y =>
@@ -279,7 +297,7 @@ theorem verify_refl (a : RA) (hc : coherent a = true) : verifyRAs a a = [] := by
     · simp [h]
     · simp [h]
   unfold specProblems header timerDiffers
-  simp only [hpi, hri, dns_refl, bne_self_eq_false, Bool.and_false, Bool.false_eq_true, if_false,
+  simp only [hpi, hri, dns_refl, hopDiffers_self, bne_self_eq_false, Bool.and_false, Bool.false_eq_true, if_false,
     List.append_nil, List.nil_append]
   cases firstMTU a.options <;> cases firstPortal a.options <;> simp
 
@@ -458,7 +476,7 @@ theorem verify_roundtrip (a : RA) (hn : NonNeg a) (hc : coherent a = true) :
   rw [hpiP, hriP]
   simp only [Spec.C03.truncateRA, pickRDNSS_trunc, pickDNSSL_trunc, firstMTU_trunc, firstPortal_trunc,
     dns_trunc _ _ _ _ hrd, dns_trunc _ _ _ _ hds, msec_trunc _ hr, msec_trunc _ ht,
-    bne_self_eq_false, Bool.and_false, Bool.false_eq_true, if_false, List.append_nil, List.nil_append]
+    hopDiffers_self, bne_self_eq_false, Bool.and_false, Bool.false_eq_true, if_false, List.append_nil, List.nil_append]
   cases firstMTU a.options <;> cases firstPortal a.options <;> simp
 
 /-- Non-vacuity: a concrete pair with a differing prefix lifetime, a differing MTU and an RDNSS
